@@ -35,7 +35,7 @@ for pid in sys.argv[1:]:
     if not os.path.isdir(wt):
         subprocess.check_call(['git','-C','/repo','worktree','add','--detach','-q',wt,'HEAD'])
         subprocess.check_call(['cp','/repo/Cargo.lock',wt+'/'])
-        subprocess.check_call(['cp','-a','/repo/target',wt+'/target'])
+        subprocess.check_call(['rsync','-a','--exclude','incremental/','--exclude','deps/rnacos-*','--exclude','deps/librnacos-*','--exclude','deps/lib-*','/repo/target/',wt+'/target/'])
     k=known.get(pid,[])
     kb='Already known for this property (do not report these again; look elsewhere):\n'+'\n'.join(' - '+x for x in k) if k else ''
     n=int(pid[1:])
